@@ -44,8 +44,17 @@ def run(c):
     if c["renderer"] == "hybrid8":      # HybridRenderer with 8 of the 15 components evaluated in real space
         kw = dict(num_pixel_render=8)
     r = REND[c["renderer"].rstrip("8")]((N, N), jnp.array(psf.astype(np.float32)), **kw)
-    im = np.asarray(r.render_source(p, "sersic"), np.float64)
-    ref = RR.pixel_integrate(N, p)
+    prof = c.get("profile", "sersic")
+    im = np.asarray(r.render_source(p, prof), np.float64)
+    if prof == "sersic":
+        ref = RR.pixel_integrate(N, p)
+    else:
+        # composite: the sum of its two components, each with its own r_eff, n and ELLIPTICITY, sharing centre and angle
+        comps = {"doublesersic": (("n_1", "n_2")), "sersic_exp": (("n", None))}[prof]
+        c1 = dict(xc=p["xc"], yc=p["yc"], theta=p["theta"], flux=p["flux"] * p["f_1"], r_eff=p["r_eff_1"], ellip=p["ellip_1"], n=p[comps[0]])
+        c2 = dict(xc=p["xc"], yc=p["yc"], theta=p["theta"], flux=p["flux"] * (1 - p["f_1"]), r_eff=p["r_eff_2"], ellip=p["ellip_2"], n=(p[comps[1]] if comps[1] else 1.0))
+        ref = RR.pixel_integrate(N, c1) + RR.pixel_integrate(N, c2)
+        p = dict(p, r_eff=max(p["r_eff_1"], p["r_eff_2"]), ellip=0.5 * (p["ellip_1"] + p["ellip_2"]), n=1.0)   # only used for the weight width below
     if c["psf"] != "delta":
         ref = RR.convolve_centered(ref, psf)
     sw = max(c.get("sw_factor", 2.0) * p["r_eff"], 3.0)
